@@ -120,7 +120,7 @@ def check_point(acc, a5, p, r):
     k = f'c07:point:{p[0]!r},{p[1]!r}@{r}'
     acc.n['states'] += 1
     try:
-        c = a5.lonlat_to_cell(p, r)
+        c = a5.lonlat_to_cell(points.as_argument(p, True), r)      # one list object updated in place between calls
         pv = sp.vec((sp.wrap_lon(p[0]), p[1]))
         for rr in range(0, r):
             par = a5.cell_to_parent(c, rr)
